@@ -51,6 +51,9 @@ fn reader_verdict(chain: &[u64], unk: &[bool], tag: u64, is_master: bool, ty: Ta
         match it.next() {
             Some(Ok(t)) => match &t.v {
                 DynVal::M(Master::Start) if starts < chain.len() && t.id == chain[starts] => { starts += 1; }
+                // an End before the whole chain is open: a later chain master has ended an earlier unknown-size one,
+                // so this chain cannot be open in the reader - no verdict
+                DynVal::M(Master::End) if starts < chain.len() => return ("na".into(), json!([])),
                 DynVal::M(Master::End) => {}
                 _ => { return if starts == chain.len() && t.id == tag { ("ok".into(), idw(t.id)) } else { ("na".into(), json!([])) }; }
             },
